@@ -69,6 +69,12 @@ def run(tier, seed, only_case=None):
     if only_case is None:
         r.model_check("MC_Coarsen", "MC_Coarsen_quick.cfg" if tier == "quick" else "MC_Coarsen_thorough.cfg", timeout=3000)
         r.model_check("CoarsenLock", "MC_CoarsenLock_ok.cfg", timeout=600)
+        if tier == "thorough":
+            # unbounded in the bounded model's constants: an inductive invariant of the lock protocol for symbolic
+            # NSpans <= 12, Batch <= 6, discharged by Apalache
+            from .. import tlc
+            t = tlc.apalache_inductive("CoarsenLock", "ConstInit", "Init", "IndInit", "IndInv")
+            r.notes.append(f"Apalache: CoarsenLock!IndInv (=> NoWriteWhileReading) inductive for symbolic NSpans<=12, Batch<=6: {t}")
         cs = cases(tier, seed)
     else:
         cs = [only_case]
